@@ -38,8 +38,24 @@ def rowsOf {α} : T23 α → List (List α)
 
 def uniformRows {α} (x : T23 α) (n : Nat) : Bool := (rowsOf x).all (·.length = n)
 
-def ftanh (x : Float) : Float := Float.tanh x
-def fdtanh (z : Float) : Float := 1 - Float.tanh z * Float.tanh z
+/-- activation codes of the protocol: 0 tanh, 1 sigmoid, 2 softplus (torch: beta 1, threshold 20), 3 sin,
+    4 ReLU, 5 identity -/
+def fsigmoid (z : Float) : Float := 1 / (1 + Float.exp (-z))
+
+def actOf : Nat → Option ((Float → Float) × (Float → Float))
+  | 0 => some (Float.tanh, fun z => 1 - Float.tanh z * Float.tanh z)
+  | 1 => some (fsigmoid, fun z => fsigmoid z * (1 - fsigmoid z))
+  | 2 => some ((fun z => if z > 20 then z else Float.log (1 + Float.exp z)), fun z => if z > 20 then 1 else fsigmoid z)
+  | 3 => some (Float.sin, Float.cos)
+  | 4 => some ((fun z => if z > 0 then z else 0), fun z => if z > 0 then 1 else 0)
+  | 5 => some (id, fun _ => 1)
+  | _ => none
+
+def pActs : P (List ((Float → Float) × (Float → Float))) := do
+  let codes ← many nat
+  match codes.mapM actOf with
+  | some l => pure l
+  | none => throw "act"
 
 def inDim {α} (L : Layer α) : Nat := match L.W with | [] => 0 | w :: _ => w.length
 
@@ -62,6 +78,8 @@ def step (line : String) : String :=
       | .error e => return e
     | "fwd" => do
       let fast ← bool; let d ← nat; let neurons ← nat; let inputDim ← nat
+      let tacts ← pActs
+      let bacts ← pActs
       let trunk ← many (pLayer float)
       let branch ← many (pLayer float)
       let x ← pT23 float
@@ -70,7 +88,7 @@ def step (line : String) : String :=
       | t0 :: _, b0 :: _ =>
         if !(uniformRows x (inDim t0)) || !(netFits trunk (inDim t0)) || !(netFits branch (inDim b0))
            || inDim b0 ≠ inputDim then return "err:shape"
-        match forward fast ftanh d neurons trunk branch inputDim x fb with
+        match forward fast (tacts.map (·.1)) (bacts.map (·.1)) d neurons trunk branch inputDim x fb with
         | .ok o => return sh3 showFloat o
         | .error e => return e
       | _, _ => return "err:nolayers"
@@ -91,6 +109,7 @@ def step (line : String) : String :=
           return "err:gshape"
         return s!"{shT23 showRat y} ; {sh3 showRat (gradInput nin L.W g)} ; {sh2 showRat (gradWeight nout nin x0 g)} ; {sh1 showRat (gradBias nout g)}"
     | "vjp" => do
+      let acts ← pActs
       let trunk ← many (pLayer float)
       let x ← pT23 float
       let g ← many (many (many float))
@@ -99,8 +118,11 @@ def step (line : String) : String :=
       | t0 :: _ =>
         if !(uniformRows x (inDim t0)) || !(netFits trunk (inDim t0)) then return "err:shape"
         let x0 := match x with | .r2 x => x | .r3 (x0 :: _) => x0 | .r3 [] => []
-        let tape := trunkTape ftanh trunk x0
-        let (gin, grads) := trunkSweep fdtanh (trunk.zip tape).reverse g
+        if acts.length + 1 < trunk.length then return "err:index"
+        let tape := trunkTape (acts.map (·.1)) trunk x0
+        -- layer i is followed by acts[i]; the last layer by nothing (derivative slot unused)
+        let ders := (acts.map (·.2)).take (trunk.length - 1) ++ [(fun (_ : Float) => (1 : Float))]
+        let (gin, grads) := trunkSweep ((trunk.zip (ders.zip tape)).reverse) g
         let gs := " ; ".intercalate (grads.reverse.map (fun p => sh2 showFloat p.1 ++ " ; " ++ sh1 showFloat p.2))
         return s!"{sh3 showFloat gin} ; {gs}"
     | "mesh" => do
